@@ -155,7 +155,8 @@ def gen(rng):
         am = ad = None
         if v == 5 and rng.random() < 0.3:
             am = rng.choice([b"M", b"M", b"SCRAM", b"M"])
-            ad = rng.choice([b"go", b"c", b"zz", b"go"])
+            # challenge/response ("c") rarely: on the unpatched tree each one costs two write timeouts (3 s) and a retry
+            ad = rng.choice([b"go", b"zz", b"go"] + ([b"c", b"c"] if rng.random() < 0.2 else []))
         if (u is None and p is not None) and v != 5 and rng.random() < 0.7:
             v = 5
         simple = (u is None or plain_tok(u)) and (p is None or plain_tok(p)) and rng.random() < 0.8
@@ -520,7 +521,7 @@ import os
 ORACLE_ARGS = ["asis"] if os.environ.get("VERIF_C19_ASIS") else []
 
 def streams(tier):
-    n = 400 if tier == "quick" else 6000
+    n = 600 if tier == "quick" else 8000
     return [(core.Stream("auth-broker", "authbroker", gen, predicate, nontrivial, canon=canon, keep_prefix=1, hint=hint,
                          oracle_args=ORACLE_ARGS), n)]
 
